@@ -788,6 +788,20 @@ impl PGen {
                 let m = *r.pick(&["≡", "≡", "∵", "⊞", "/"]);
                 let l = 1 + r.below(3);
                 format!("{m}({})", self.body(r, depth - 1, l))
+            } else if k < 78 {
+                // under of a dyadic arithmetic function: the do-half saves one argument on the hidden
+                // context stack, the inner function runs (and may fail), the undo-half pops it
+                let f = *r.pick(&["+", "×", "-", "⊙(+)", "+ 1", "⊙(×)"]);
+                let l = 1 + r.below(3);
+                if r.chance(1, 3) {
+                    // a failure BETWEEN the do-half and the undo-half of an under, caught by a try:
+                    // the saved context value must be gone when the handler runs
+                    let f2 = *r.pick(&["+", "×", "-"]);
+                    let k2 = r.below(4);
+                    format!("⍣(⍜({f2})({} ⍤\"boom\" <{k2} .))({})", self.body(r, depth - 1, l - 1), r.pick(&DYADIC))
+                } else {
+                    format!("⍜({f})({})", self.body(r, depth - 1, l))
+                }
             } else if k < 90 {
                 let m = *r.pick(&["⊙", "⋅", "⟜", "⊸", "⤙", "⤚", "◡", "∩", "⍩"]);
                 let l = 1 + r.below(3);
